@@ -11,28 +11,15 @@ RULE = ("resolve-level plans generated without the planner (loaderlab: response 
         "fetches when <= 6, else 2000). An evaluation is one (plan, fault set) run through resolve.Resolver; it is distinct by "
         "construction and non-trivial when the faults changed the response data relative to the fault-free run.")
 
-KEYS = ["nan-accepted", "status-ignored-with-data", "entity-count-ignored", "nullable-requires-null-sent"]
+KEYS = ["status-ignored-with-data"]   # nan-accepted, entity-count-ignored, nullable-requires-null-sent: repaired in loader.go
 
 
 def classify(case, detail):
     m = re.search(r"causes=\[([^\]]*)\]", detail)
     causes = [c for c in (m.group(1).split(",") if m else []) if c]
     clause = detail.split(" ", 1)[0]
-    if clause == "valid_response":
-        if "not valid JSON" in detail and "nan-accepted" in causes:
-            return "nan-accepted"
-        return None
-    if clause == "errors_nonempty":
-        return "entity-count-ignored" if "entity-count-ignored" in causes else None
-    if clause == "requests_subset":
-        for k in ("nan-accepted", "nullable-requires-null-sent"):
-            if k in causes:
-                return k
-        return None
-    if clause in ("affected_null", "unaffected_equal"):
-        for k in KEYS:
-            if k in causes:
-                return k
+    if clause in ("affected_null", "unaffected_equal") and "status-ignored-with-data" in causes:
+        return "status-ignored-with-data"
     return None
 
 
@@ -91,8 +78,8 @@ def run(chk, extra_corpus=None):
         "object keys, an affected set closed under dependants, a faulty run that does not fail as a whole",
     ]
     chk.notes += [
-        "findings (Go replays in corpus/C07/cases.tsv; keys in KNOWN_FINDINGS.txt): nan-accepted, status-ignored-with-data, entity-count-ignored, "
-        "nullable-requires-null-sent; not reachable by the generator (single provider per field) but proved and replayed: "
+        "finding still open: status-ignored-with-data (the status code is a documented fallback in mergeResult); repaired in loader.go and kept as passing "
+        "corpus regressions: nan-accepted, entity-count-ignored, nullable-requires-null-sent (work/c07_fix_*.patch); not reachable by the generator (single provider per field) but proved and replayed: "
         "c07_response_merge_order_refuted = `harness/bin/c07 probe-null-object x x`",
     ]
     chk.proof_side(extra_dirs=["C02"])
